@@ -200,7 +200,7 @@ def compare_chunk(ctx, level, d, failing, seen, st):
                               {"kind": "model!=impl", "ops": [o], "impl": i, "model": m}, no_input=True, kind="model!=impl")
             continue
         ctx.cov["evaluations"] += 1
-        if i.startswith("rejected:analyzer-panic@") and m != "dc":
+        if i.startswith("rejected:analyzer-panic@") and m != "div0":
             # the analyzer panics on the design itself: no engine can evaluate it
             bad = [("an", i[len("rejected:analyzer-"):])]
             t = o.split(" ")
@@ -212,7 +212,7 @@ def compare_chunk(ctx, level, d, failing, seen, st):
         if i.startswith("rejected"):
             st["rejected_lines"] += 1
             continue
-        if m == "dc":
+        if m == "div0":
             st["dont_care_div0"] += 1
             continue
         st["lines_compared"] += 1
@@ -229,26 +229,45 @@ def compare_chunk(ctx, level, d, failing, seen, st):
                 failing.append((level, o))
 
 
-def part_b(ctx):
-    t0 = time.time()
-    verify_witnesses(ctx)
-    ctx.cov["witness_replay_s"] = round(time.time() - t0, 1)
-    stim = 4
-    # (stratum, chunks, designs per chunk): S0 gets half of the budget and is expected to be failure-free.
-    # Chunk seeds do not depend on the tier, so the quick designs are a prefix of the thorough ones.
-    plan = [(0, tier_n(ctx, 4, 8), tier_n(ctx, 60, 200)), (1, tier_n(ctx, 2, 4), tier_n(ctx, 40, 150)),
-            (2, tier_n(ctx, 2, 4), tier_n(ctx, 40, 150)), (3, tier_n(ctx, 2, 4), tier_n(ctx, 40, 150))]
+CORPUS = f"{ROOT}/corpus/C18"
+
+
+def engine_jobs(ctx, plan, stim=4):
+    """(stratum, chunks, designs per chunk) -> hx jobs. Chunk seeds do not depend on the tier, so the quick
+    designs are a prefix of the thorough ones."""
     jobs, meta = [], []
     for level, chunks, n in plan:
         for j in range(chunks):
             d = f"{ctx.run_dir}/engexpr-S{level}-{j}"
             jobs.append((d, ["--seed", ctx.seed * 1000 + level * 100 + j, "--n", n, "--stratum", level, "--stim", stim]))
             meta.append((level, n, d))
+    return jobs, meta
+
+
+def corpus_jobs(ctx):
+    """The committed regression corpus: request lines of designs on which every engine and the compile-time
+    evaluator agree with the reference on the unchanged tree (independent of the seed)."""
+    jobs, meta = [], []
+    if os.path.isdir(CORPUS):
+        for f in sorted(os.listdir(CORPUS)):
+            m = re.match(r"s(\d)\S*\.txt$", f)
+            if m:
+                d = f"{ctx.run_dir}/corpus-{f[:-4]}"
+                with open(f"{CORPUS}/{f}") as fh:
+                    n = len(set(" ".join(l.split(" ")[2:6] + l.split(" ")[9:]) for l in fh.read().split("\n") if l))
+                jobs.append((d, ["--replay", f"{CORPUS}/{f}"]))
+                meta.append((int(m.group(1)), n, d))
+    return jobs, meta
+
+
+def collect_failing(ctx, jobs, meta, tag):
+    """Run the jobs, compare every line with the reference; returns [(stratum, failing request line)]
+    (one per design and failure pattern)."""
     t1 = time.time()
     outs = hx_parallel(ctx, jobs)
-    ctx.cov["engines_run_s"] = round(time.time() - t1, 1)
+    ctx.cov[f"{tag}_run_s"] = round(time.time() - t1, 1)
     failing, seen = [], set()
-    strata = ctx.cov.setdefault("strata", {})
+    strata = ctx.cov.setdefault(f"{tag}_strata", {})
     for (level, n, d), (rc, out) in zip(meta, outs):
         st = strata.setdefault(f"S{level}", {"designs": 0, "lines_compared": 0, "dont_care_div0": 0, "rejected_lines": 0,
                                              "failing_designs": 0})
@@ -261,9 +280,14 @@ def part_b(ctx):
         compare_chunk(ctx, level, d, failing, seen, st)
         st["failing_designs"] += len(failing) - before
     ctx.cov["traces_validated_against_impl"] += sum(s["lines_compared"] for s in strata.values())
+    return failing
+
+
+def report_failing(ctx, failing, tag):
+    """Shrink + classify every failing design; one report per defect class / unclassified signature."""
     t2 = time.time()
-    shrunk = shrink_lines(ctx, [l for _, l in failing], "shrink")
-    ctx.cov["shrink_s"] = round(time.time() - t2, 1)
+    shrunk = shrink_lines(ctx, [l for _, l in failing], f"{tag}-shrink")
+    ctx.cov[f"{tag}_shrink_s"] = round(time.time() - t2, 1)
     groups = {}
     for (level, line), (stt, key, wit, src) in zip(failing, shrunk):
         if stt != "fail":
@@ -272,18 +296,35 @@ def part_b(ctx):
                           {"kind": "impl!=oracle", "ops": [line]}, key=None, kind="impl!=oracle")
             continue
         groups.setdefault(key, []).append((level, line, wit, src))
-    ctx.cov["signatures_hit"] = {k: len(v) for k, v in groups.items()}
+    hit = ctx.cov.setdefault("signatures_hit", {})
     for key, members in groups.items():
-        # one report per signature: the smallest witness, the others listed in the replay file
+        hit[key] = hit.get(key, 0) + len(members)
+        # one report per class: the smallest witness, the others listed in the replay file
         level, line, wit, src = min(members, key=lambda m: (len(m[2]), m[2]))
-        cls = "+".join(ENGINE_CLASSES.get(c, c) for c in key.split(":")[0].split("+"))
         body = {"kind": "impl!=oracle", "key": key, "witness": wit, "veryl": src, "original": line, "stratum": f"S{level}",
                 "seed": ctx.seed, "designs_with_this_signature": len(members),
                 "other_witnesses": sorted(set(m[2] for m in members) - {wit})[:20],
                 "replay": f"{HX} engexpr --replay <file with the witness line> --out DIR ; {VMODEL} exprref < DIR/ops.txt "
                           f"(reference value) ; impl.txt lists every engine, oracle.txt the compile-time value"}
-        ctx.violation(f"S{level}: {cls} deviate(s) from the IEEE 1800 value on `{src}` [{wit}] — signature {key} "
-                      f"({len(members)} design(s))", body, key=key, kind="impl!=oracle")
+        ctx.violation(f"S{level}: deviation from the IEEE 1800 value on `{src}` [{wit}] — {key} ({len(members)} design(s))",
+                      body, key=key, kind="impl!=oracle")
+
+
+QUICK_PLAN = [(0, 8, 30)]
+THOROUGH_PLAN = [(0, 8, 200), (1, 4, 150), (2, 4, 150), (3, 4, 150)]
+
+
+def part_b(ctx):
+    t0 = time.time()
+    verify_witnesses(ctx)
+    ctx.cov["witness_replay_s"] = round(time.time() - t0, 1)
+    # 1. the regression corpus (seed independent), 2. the random search: S0 (failure-free up to the recorded
+    # defect classes) gets most of the quick budget; the broad S1–S3 search belongs to the thorough tier
+    cj, cm = corpus_jobs(ctx)
+    failing = collect_failing(ctx, cj, cm, "corpus") if cj else []
+    ej, em = engine_jobs(ctx, THOROUGH_PLAN if ctx.tier == "thorough" else QUICK_PLAN)
+    failing += collect_failing(ctx, ej, em, "random")
+    report_failing(ctx, failing, "all")
 
 
 def run(ctx):
@@ -297,12 +338,19 @@ def run(ctx):
         "harness/src/dom_engexpr.rs (Veryl text generation, engine driving, shrinking, signature); the Cranelift and C "
         "lowerings are validated by these runs, not modelled",
     ]
-    ctx.cov["rule"] = ("part A: every exported wide_* helper called in-process on 1–6 word unaligned buffers with canaries "
-                       "(boundary-biased values/widths/shift amounts); reply = destination buffer / returned i64; compared with "
-                       "the Lean model (correspondence) and a Vec<bool> oracle (property); distinct = distinct (call, reply). "
-                       "part B: random expression modules (3 ports, widths 1..300, depth ≤ 3, strata S0 unsigned ≤64 no / % | "
-                       "S1 +signed | S2 +/ % | S3 +widths 65..300), warning-free, every Config::all() engine and the analyzer's "
-                       "constant evaluation vs the Lean IEEE 1800 reference; failures shrunk and attributed by signature")
+    ctx.cov["rule"] = ("PROVED (Lean): part A — the 25 wide_* helpers of wide_ops.rs are correct for every word count — and the "
+                       "range lemmas of the reference evaluator (exprref_eval_lt, exprref_assign_lt). Part A correspondence: every "
+                       "exported wide_* helper called in-process on 1–6 word unaligned buffers with canaries (boundary-biased "
+                       "values/widths/shift amounts) vs the Lean model and a Vec<bool> oracle; distinct = distinct (call, reply). "
+                       "Part B is a SEARCH + VALIDATION, not a proof: (1) the witness of every recorded defect class is replayed, "
+                       "(2) the committed corpus corpus/C18/*.txt of passing S1–S3 designs, (3) random warning-free expression modules "
+                       "(3 ports, depth ≤ 3; S0 = unsigned, every width ≤ 64, no / %; S1 +signed; S2 +/ %; S3 +widths 65..300) under "
+                       "every Config::all() engine and the analyzer's constant evaluation, against the Lean IEEE 1800 reference; a "
+                       "failing design is shrunk and attributed to a defect class only if the class predicate (engine set, failure "
+                       "kind, width regime, and — for cc-constant, cc-msb64, ct-ternary, eq/ne — re-evaluation of the reference under "
+                       "the defect's mechanism reproducing the engine's value) holds on the shrunk case; anything else is a violation")
+    ctx.notes.append("C18 level: proof for part A (wide_ops) and the reference evaluator's range lemmas; part B (engines, compile-time "
+                     "evaluation) is randomized search + validation against the Lean reference, the Cranelift/C lowerings are not modelled")
     if not harness_build(ctx):
         return
     part_a(ctx)
